@@ -230,6 +230,32 @@ def rule_reserved(ctx):
     ctx.check("cwd=workdir" in src, rc.fq, "the command runs in the step's working directory", "cwd changed", "cwd=workdir")
     ds = ctx.prog.func("workflow.Workflow.define_step")
     ctx.check("reserved = set(env_overrides) & RESERVED_ENV_VARS" in _norm(ast.unparse(ds.node)), ds.fq, "overrides of reserved variables are rejected at declaration", "not rejected", "rejected")
+    # STEPUP_ROOT handed to the steps is the director's actual working directory (the tool has already changed into the
+    # project root; the environment variable it started from may be relative or reach the root through a symlink)
+    sv = ctx.prog.func("director.serve")
+    vals = []
+    for n in ast.walk(sv.node):
+        if isinstance(n, ast.Dict):
+            for k, v in zip(n.keys, n.values):
+                if isinstance(k, ast.Constant) and k.value == "STEPUP_ROOT":
+                    vals.append(ast.unparse(v))
+        if isinstance(n, ast.Assign) and len(n.targets) == 1 and isinstance(n.targets[0], ast.Subscript) and isinstance(n.targets[0].slice, ast.Constant) and n.targets[0].slice.value == "STEPUP_ROOT":
+            vals.append(ast.unparse(n.value))
+    if not vals:
+        raise AnalysisError("director.serve no longer sets STEPUP_ROOT for the steps")
+    ctx.check(all(v in ("str(Path.cwd())", "os.getcwd()", "str(Path.cwd().absolute())") for v in vals), sv.fq, "STEPUP_ROOT for the steps = the director's working directory",
+              f"STEPUP_ROOT is taken from {vals}: when the build was started with a relative (or symlinked) STEPUP_ROOT the steps resolve root-based paths against a directory that is not the one the director records paths against", "Path.cwd()", where=ctx.where_of(sv))
+    # the label is the only record of (command, workdir): parsing inverts adjust_label, which forbids the marker in the
+    # command but not in the working directory, so the split is at the FIRST marker
+    al = ctx.prog.func("step.Step.adjust_label")
+    cw = ctx.prog.func("step.Step.command_and_workdir")
+    marker = [n.value for n in ast.walk(al.node) if isinstance(n, ast.Constant) and isinstance(n.value, str) and "# wd=" in n.value and "{" not in n.value]
+    guards = [n for n in ast.walk(al.node) if isinstance(n, ast.If) and isinstance(n.test, ast.Compare) and isinstance(n.test.ops[0], ast.In) and any(isinstance(x, ast.Raise) for x in n.body)]
+    ctx.check(bool(guards) and all(ast.unparse(g.test.comparators[0]) == al.params()[1] for g in guards), al.fq, "the marker is rejected in the command", "a command may contain the workdir marker: the label no longer determines (command, workdir)", "raises")
+    splits = [c for c in calls_in(cw.node) if callee_name(c) in ("split", "rsplit", "partition", "rpartition")]
+    ok = len(splits) == 1 and ((callee_name(splits[0]) == "split" and any(k.arg == "maxsplit" and ast.unparse(k.value) == "1" for k in splits[0].keywords) or (callee_name(splits[0]) == "split" and len(splits[0].args) == 2 and ast.unparse(splits[0].args[1]) == "1")) or callee_name(splits[0]) == "partition")
+    ok = ok and bool(marker) and isinstance(splits[0].args[0], ast.Constant) and splits[0].args[0].value in marker
+    ctx.check(ok, cw.fq, "the label is split at the first workdir marker", f"label parsed with {[ast.unparse(c.func) + '(' + ', '.join(ast.unparse(a) for a in c.args) + ')' for c in splits]}: a working directory that contains the marker is taken apart differently from how the label was built, and the command runs in another directory than the one the paths were translated for", "split(marker, maxsplit=1)", where=ctx.where_of(cw))
 
 
 def rule_clean_tool(ctx):
@@ -253,6 +279,8 @@ RULES = [
 ]
 
 MUTANTS = [
+    Mutant("label-split-at-last-marker", "step.py", in_function("Step.command_and_workdir", lambda s: s.replace('parts = self.label.split("  # wd=", maxsplit=1)', 'parts = self.label.rsplit("  # wd=", maxsplit=1)') if 'self.label.split("  # wd=", maxsplit=1)' in s else None), ("R-C20-3",)),
+    Mutant("root-from-environment", "director.py", in_function("serve", replace_once('"STEPUP_ROOT": str(Path.cwd()),', '"STEPUP_ROOT": os.environ.get("STEPUP_ROOT", str(Path.cwd())),')), ("R-C20-3",)),
     Mutant("root-prefix-cut", "path.py", in_function("translate", replace_once("            path = (root / here / path).normpath().relpath(root)\n", "            path = (root / here / path).normpath()\n            path = Path(path[len(root) + 1 :]) if path.startswith(root) and path != root else path.relpath(root)\n")), ("R-C20-6",)),
     Mutant("step-no-workdir", "api.py", in_function("step", replace_once("tr_out_paths = [translate(out_path, su_workdir) for out_path in su_out_paths]", "tr_out_paths = [translate(out_path) for out_path in su_out_paths]")), ("R-C20-1",)),
     Mutant("amend-untranslated", "api.py", in_function("amend", replace_once("tr_inp_paths = {translate(inp_path) for inp_path in su_inp_paths}", "tr_inp_paths = set(su_inp_paths)")), ("R-C20-1",)),
